@@ -332,6 +332,26 @@ class Ctx:
             return None
         return out
 
+    def build_thruserv(self, race=False):
+        """The real server binary from /repo's working tree (tag verif: hook points live, plus the overlaid
+        line-protocol driver that is entered only when THRUSERV_VERIF=1)."""
+        ov = os.path.join(self.workdir, "overlay-serv.json")
+        if not os.path.exists(ov):
+            self.build_harness("serv")
+        out = os.path.join(BIN, f"thruserv-{self.prop}" + ("-race" if race else ""))
+        if os.path.exists(out):
+            os.remove(out)
+        cmd = ["go", "build", "-tags", "verif", "-overlay", ov, "-o", out]
+        if race:
+            cmd.append("-race")
+        cmd.append("./cmd/thruserv")
+        rc, o, e = run(cmd, cwd=REPO, env=goenv(), timeout=1200)
+        if rc != 0:
+            self.log("thruserv build failed:\n" + e[-3000:])
+            self.harness_err = e
+            return None
+        return out
+
     def run_harness(self, exe, cases_path, out_path, args=(), timeout=1800, env=None):
         e = goenv()
         e["GOMEMLIMIT"] = "4GiB"
@@ -393,6 +413,9 @@ class Ctx:
 
     def finish(self, level, technique_note=""):
         """Decide the exit status, print VIOLATION / KNOWN-FINDING lines, write evidence."""
+        import glob as _glob
+        for old in _glob.glob(os.path.join(VERIF, "replays", f"{self.prop}-{self.seed}-*.json")):
+            os.remove(old)  # replays of an earlier run of this property/seed
         known = self.known_findings()
         open_sigs = {f["signature"]: f for f in known if f.get("status") == "open"}
         unknown = []
